@@ -39,6 +39,16 @@ def startupOps (orphanFatal : Bool) (fs : FileSet) : List Op :=
   | .sealed _ => []
   | .active => newActiveOps ++ (if fs.metaF = .empty then removeFractionFilesOps else [])   -- replayed, no documents: removed
 
+/-- a start-up whose context is cancelled while the active fractions are being replayed (`Active.Replay` returns
+`ctx.Err()` at once, `loader.load` gives up): everything the loader does *before* the replay loop has happened -
+deletions are finished, the originals next to a sealed fraction are removed, `NewActive` has opened the files of an
+active fraction - but nothing that follows a replay (no `truncateTail`, no removal of an empty fraction).
+Always a prefix of `startupOps`. -/
+def cancelledStartOps (orphanFatal : Bool) (fs : FileSet) : List Op :=
+  match classify fs with
+  | .active => newActiveOps
+  | _ => startupOps orphanFatal fs
+
 /-- what the running store holds for the fraction -/
 inductive Role
   | none       -- nothing (not yet created, deleted, skipped)
